@@ -173,7 +173,9 @@ class SearchKey(Parseable[bytes]):
             inverse = True
             buf = buf[match.end(0):]
         try:
-            seq_set, buf = SequenceSet.parse(buf, params)
+            # a bare set is always message sequence numbers, the UID prefix
+            # of the command only changes what is returned
+            seq_set, buf = SequenceSet.parse(buf, params.copy(uid=False))
         except NotParseable:
             pass
         else:
